@@ -161,7 +161,7 @@ def run(env):
     # the zero check under other code generation: native CPU features (compile-time SIMD paths) every time;
     # size-optimised, unoptimised and release builds in the thorough tier
     small = build(env, 1, 200).text()
-    for b in env.pick(("native",), ("native", "opts", "opt0", "fast")):
+    for b in env.pick(("native", "cfg-fuzzing"), ("native", "cfg-fuzzing", "opts", "opt0", "fast")):
         rb = env.drive("smallorder", small, build=b)
         env.require_complete(rb, "smallorder/" + b)
         env.pmap(monitor, rb.sessions, workload="smallorder")
